@@ -60,6 +60,7 @@ def run(chk: Check, ctx: Any) -> None:
         "docs are accepted by the reader's operations (R4), and no error path exits with status 0 or swallows an exception (R5). "
         "End-to-end behaviour of the decompiled program inherits C02."
     )
+    chk.rule("C15-R6", "build_routines_json and read_routines interpreted on compiled programs (all parameter kinds, all routine kinds, alias routines, dropped jumps, jumps between routines): the structure is JSON, every jump parameter is the 1-based position of its target counted across routines, the decompile side reads back the same routine table, names and behaviour, and the program it prints behaves like the source")
     chk.rule("C15-R1", "type tags / keys written by cli.compile = read by cli.decompile = documented in docs/cli_api_usage.rst; each tag maps to the same parameter class and field on both sides")
     chk.rule("C15-R2", "jump parameters printed by the compile CLI are list positions: mapped through a table keyed by op.offset whose values count "
                        "the printed ops 1-based across all routines (values independent of internal offsets); the param at the jump index of "
@@ -400,6 +401,9 @@ def run(chk: Check, ctx: Any) -> None:
                                "an exception handler in the __main__ block swallows the error: the process exits with status 0 on failure",
                                "handler re-raises or exits non-zero", node=n)
     chk.floor("C15-R5", "explicit exit() calls", n_exit, 5)
+    from .cli_roundtrip import cli_roundtrip_rule
+    cli_roundtrip_rule(chk, ctx, "C15-R6")
+
 
 
 def _r2(chk: Check, ctx: Any, build_ops: Func, build_routines: Func, loopvar: str) -> None:
